@@ -157,6 +157,8 @@ CORPUS = {
     "comment-at-column-zero-inside-the-main-loop": S("while True:\n    mon.write('p1')\n# disabled: sleep(99)\n    mon.write('p2')\n    sleep(5)\n"),
     "comment-at-column-zero-inside-a-for-in-the-main-loop": S("while True:\n    for i in range(2):\n        mon.write(i)\n# was: sleep(1)\n        mon.write(i + 10)\n    sleep(5)\n"),
     "min-max-with-three-to-six-arguments": S("a = 3\nb = 9\nc = 12\nd = -4\ne = 40\nf = 7\nmon.write(max(a, b, c))\nmon.write(min(a, b, d))\nmon.write(max(a, b, c, d, e))\nmon.write(min(f, e, c, b, d))\nmon.write(max(a, b, c, d, f, e))\nmon.write(min(a, b, c, e, f, d))\n"),
+    "negated-comparisons-at-the-boundary": S("a = 5\nb = 5\nc = 6\nmon.write(1 if not (a >= b) else 0)\nmon.write(1 if not (a <= b) else 0)\nmon.write(1 if not (a > b) else 0)\nmon.write(1 if not (a < b) else 0)\nmon.write(1 if not (a == b) else 0)\nmon.write(1 if not (a != b) else 0)\n"
+                                         "mon.write(1 if not a >= c else 0)\nmon.write(1 if not c <= a else 0)\nk = 0\nlimit = 3\nwhile not (k >= limit):\n    k = k + 1\nmon.write(k)\nj = 9\nwhile not j <= limit:\n    j = j - 2\nmon.write(j)\nif not (k > limit):\n    mon.write('le')\n"),
     "chained-comparison-with-local-left-operand": S("def inside(low):\n    return low < abs(low + 1) < 900\nk = 0\nwhile True:\n    low = k + 1\n    if low < abs(k + 5) < 900:\n        mon.write(1)\n    for i in range(2):\n        if i < abs(k + 1) < 50:\n            mon.write(i)\n"
                                                     "    mon.write(inside(k))\n    k = k + 1\n    sleep(5)\n"),
     "main-loop-header-with-trailing-comment": S("k = 0\nwhile True:  # main loop\n    k = k + 1\n    mon.write(k)\n    sleep(5)\n"),
